@@ -95,12 +95,32 @@ fn decode_loop() {
         if let Some(chunks) = v.get("chunks") {
             // streaming API: one decoder over all chunks, no BOM handling, not `last`
             let mut dec = encoding_rs::UTF_8.new_decoder_without_bom_handling();
-            let mut res: Vec<Vec<u32>> = Vec::new();
-            for ch in chunks.as_array().unwrap() {
+            let caps = v.get("caps").and_then(|c| c.as_array().cloned());
+            let mut res: Vec<Value> = Vec::new();
+            for (k, ch) in chunks.as_array().unwrap().iter().enumerate() {
                 let bytes: Vec<u8> = ch.as_array().unwrap().iter().map(|x| x.as_u64().unwrap() as u8).collect();
-                let mut s = String::with_capacity(dec.max_utf8_buffer_length(bytes.len()).unwrap());
-                let _ = dec.decode_to_string(&bytes, &mut s, false);
-                res.push(s.chars().map(|c| c as u32).collect());
+                match &caps {
+                    None => {
+                        let mut s = String::with_capacity(dec.max_utf8_buffer_length(bytes.len()).unwrap());
+                        let _ = dec.decode_to_string(&bytes, &mut s, false);
+                        res.push(json!(s.chars().map(|c| c as u32).collect::<Vec<u32>>()));
+                    }
+                    Some(cs) => {
+                        // explicit (possibly too small) destination capacity: report what was consumed too
+                        let cap = cs[k].as_u64().unwrap() as usize;
+                        let mut s = String::with_capacity(cap);
+                        let r = std::panic::catch_unwind(std::panic::AssertUnwindSafe(|| {
+                            let real_cap = s.capacity();
+                            let (res_, read, _) = dec.decode_to_string(&bytes, &mut s, false);
+                            (real_cap, matches!(res_, encoding_rs::CoderResult::OutputFull), read)
+                        }));
+                        match r {
+                            Ok((real_cap, full, read)) => res.push(json!({"cps": s.chars().map(|c| c as u32).collect::<Vec<u32>>(),
+                                                                  "read": read, "full": full, "cap": real_cap})),
+                            Err(_) => { res.push(json!({"panic": true})); break; }
+                        }
+                    }
+                }
             }
             writeln!(o, "{}", serde_json::to_string(&res).unwrap()).unwrap();
         } else {
